@@ -313,6 +313,12 @@ func (self *linkedPairs) growTailLength(l int) {
 }
 
 // linear search
+// removed reports whether the slot was unset: a removed slot is the zero Pair,
+// its empty key must not be taken for the key ""
+func (self *Pair) removed() bool {
+	return self.Key == "" && self.Value.t == _V_NONE
+}
+
 func (self *linkedPairs) Get(key string) (*Pair, int) {
 	if self.index != nil {
 		// fast-path
@@ -323,7 +329,7 @@ func (self *linkedPairs) Get(key string) (*Pair, int) {
 			if n == nil {
 				goto linear_search
 			}
-			if n.Key == key {
+			if n.Key == key && !n.removed() {
 				return n, i
 			}
 			// hash conflicts
@@ -334,7 +340,7 @@ func (self *linkedPairs) Get(key string) (*Pair, int) {
 	}
 linear_search:
 	for i := 0; i < self.size; i++ {
-		if n := self.At(i); n.Key == key {
+		if n := self.At(i); n.Key == key && !n.removed() {
 			return n, i
 		}
 	}
